@@ -78,7 +78,7 @@ def expected : List Expected := [
   ⟨⟨"interp", "vars.go", "*Runner.assignVal", "panic", "\"unexpected conversion of kind %d\"", 1⟩,
     "UNREACHABLE-INTERNAL: the enclosing switch handles every ValueKind a variable can have when appended to (Unknown, String, Indexed, Associative; NameRef is resolved before)"⟩,
   ⟨⟨"interp", "vars.go", "*Runner.lookupVar", "panic", "\"variable name must not be empty\"", 1⟩,
-    "REACHABLE: C28-arith-lvalue-index (`((a[1]++))`, theorem arith_name_counterexample) and C28-empty-variable-name (`unset ''`, `[[ -v \"\" ]]`)"⟩,
+    "REACHABLE: C28-arith-lvalue-index (`((a[1]++))`, theorem arith_name_counterexample), C28-empty-variable-name (`unset ''`, `[[ -v \"\" ]]`) and C28-empty-nameref-target (`declare -n foo=; echo $foo`)"⟩,
   ⟨⟨"interp", "vars.go", "*overlayEnviron.Set", "assert", "o.parent.(expand.WriteEnviron)", 1⟩,
     "UNREACHABLE-INTERNAL: the branch is taken only for funcScope overlays, which Runner.call creates with r.writeEnv (always a WriteEnviron) as parent"⟩
 ]
